@@ -60,7 +60,11 @@ impl Dec {
     }
 }
 
+/// Progress counter watched by the hang watchdog of the batch runner.
+pub static TICKS: std::sync::atomic::AtomicU64 = std::sync::atomic::AtomicU64::new(0);
+
 thread_local! {
+    static ACTION_BUDGET: Cell<i64> = const { Cell::new(i64::MAX) };
     static LOG: RefCell<Vec<Value>> = const { RefCell::new(Vec::new()) };
     static SCRIPT: RefCell<Vec<usize>> = const { RefCell::new(Vec::new()) };
     static USE_TEXT: Cell<bool> = const { Cell::new(false) };
@@ -92,6 +96,14 @@ pub fn on_action(
     tx: Option<String>,
     pk: Option<char>,
 ) -> Dec {
+    TICKS.fetch_add(1, std::sync::atomic::Ordering::Relaxed);
+    let left = ACTION_BUDGET.with(|c| {
+        c.set(c.get() - 1);
+        c.get()
+    });
+    if left < 0 {
+        panic!("VERIF: more action invocations than characters + 10 (lexer does not make progress)");
+    }
     let n = st.n;
     let ch = SCRIPT.with(|s| s.borrow().get(n as usize).copied().unwrap_or(0)) % menu.len();
     let mut ev = json!({
@@ -211,7 +223,8 @@ pub fn drive<L: Lx>(lexer: L, req: &Req) {
     }
 }
 
-pub fn begin_run(script: &[usize], use_text: bool, tag_lx: bool) {
+pub fn begin_run(script: &[usize], use_text: bool, tag_lx: bool, action_budget: i64) {
+    ACTION_BUDGET.with(|c| c.set(action_budget));
     LOG.with(|l| l.borrow_mut().clear());
     SCRIPT.with(|s| *s.borrow_mut() = script.to_vec());
     USE_TEXT.with(|c| c.set(use_text));
